@@ -145,7 +145,7 @@ def hook(view1, view2=None, matvec=None):
         cx = Ctx(P, p)
         d = _strip(dst)
         c = ctype_or_none(P, d)
-        line = u.get('range', {}).get('begin', {}).get('line', '?')
+        line = u.get('_line', '?')
         if c == view1:
             dv = cx.bind(view1, P.expr(d))
             val = kernel(cx, rhs, f'{dv}.n', f'{dv}.k')
